@@ -39,3 +39,13 @@ s = put(s, begin6, end6, t6)
 s = put(s, begin7, end7, t7)
 open(os.path.join(V, "DESIGN.md"), "w").write(s)
 print("tables written: %d mutants, %d seeded" % (len(exp), len(rows)))
+
+# 14.3: the list of repaired defects is known_findings.json's "fixed" array
+import json as _json, os as _os
+_V = _os.path.dirname(_os.path.dirname(_os.path.abspath(__file__)))
+_p = _os.path.join(_V, "DESIGN.md")
+_d = open(_p).read()
+_a, _b = _d.index("<!-- FIXED-LIST -->"), _d.index("<!-- /FIXED-LIST -->")
+_fixed = _json.load(open(_os.path.join(_V, "known_findings.json")))["fixed"]
+_d = _d[:_a] + "<!-- FIXED-LIST -->\n" + "\n".join("* `%s`" % f.replace("`", "'") for f in _fixed) + "\n" + _d[_b:]
+open(_p, "w").write(_d)
